@@ -94,6 +94,8 @@ struct Task {
   bool detached = false, joined = false, is_thread = false, started = false;
   void *retval = nullptr;
   int prio = 0;                 // PCT priority
+  bool yielded = false;         // asked for sched_yield: somebody else runs next if anybody can
+  uint32_t passed_over = 0;     // consecutive scheduling points at which this task could run and was not chosen (starvation bound)
   // spin detection
   const void *spin_addr = nullptr;
   int spin_count = 0;
